@@ -32,19 +32,38 @@ def expected_listing(doc):
     return out
 
 
-def one(ctx: Ctx, cs):
+def one(ctx: Ctx, cs, damage=False):
     import kernpy as kp
     TC = kp.TokenCategory
     doc, pname = make_doc(cs, None, p_gcomment=0.12, p_pre_gcomment=0.5, p_post_gcomment=0.5)
+    n_damaged = 0
+    if damage:
+        # documents with malformed **kern cells are documents too: the listing holds an error token with the raw text
+        from .c12 import malformed
+        from ..gen.doc import Cell, KERN_LIKE
+        rng = random.Random(cs ^ 0xE44)
+        doc.infos()
+        cand = [(li, col) for li, ln in enumerate(doc.lines) if ln.kind == 'data' for col, c in enumerate(ln.cells)
+                if doc.headers[c.spine] in KERN_LIKE]
+        for (li, col) in rng.sample(cand, min(len(cand), rng.randint(1, 3))):
+            t, cl = malformed(rng)
+            while cl == 'garbage-suffix':
+                t, cl = malformed(rng)
+            sp = doc.lines[li].cells[col].spine
+            doc.lines[li].cells[col] = Cell('error', t, spine=sp)
+            n_damaged += 1
+        doc._infos = None
     x = doc.text(0)
     ctx.ev()
     ctx.mon('documents')
     d, e, exc = kpx.loads(x)
-    if exc is not None or e:
+    if exc is not None or (e and not damage) or (damage and len(e) != n_damaged):
         ctx.mon('precondition_failed')
         return
+    if damage:
+        ctx.cls('document_with_error_tokens')
     ctx.cls(*sorted(doc.tags))
-    case = {'case_seed': cs, 'text': x}
+    case = {'case_seed': cs, 'text': x, 'damage': damage}
     exp = expected_listing(doc)
     try:
         listing = d.get_all_tokens()
@@ -155,7 +174,8 @@ def one(ctx: Ctx, cs):
 
 
 def run(ctx: Ctx):
-    ctx.rule = ('documents of the C01 generator with global comments before, inside and after the spines, splits and joins. Oracle: '
+    ctx.rule = ('documents of the C01 generator with global comments before, inside and after the spines, splits and joins (a fifth of them with '
+                '1..3 malformed **kern cells, i.e. error tokens in the tree). Oracle: '
                 'get_all_tokens() == the spine-path model\'s DFS order (pre-header comments, each spine depth-first left to right with the '
                 'merged path continuing under the first join cell, later comments), every node token once; filtered listing == sub-sequence of '
                 'the REAL listing whose own category lies in the closure of the filter (37 single filters + 8 random sets, argument forms '
@@ -164,8 +184,8 @@ def run(ctx: Ctx):
                 'Non-trivial = (document, filter) with a proper non-empty filtered listing; distinct by (document, filter).')
     ctx.assumptions = ['DFS order as designed by kernpy (global comments chain from the root); monophony is decided document-wide']
     n = 170 if ctx.tier == 'quick' else 1000
-    for cs in cases(ctx, 'c17', n):
-        one(ctx, cs)
+    for k, cs in enumerate(cases(ctx, 'c17', n)):
+        one(ctx, cs, damage=(k % 5 == 4))
     if ctx.monitor_events.get('monophonic=True', 0) == 0 and ctx.shard is None:
         ctx.inconc('no monophonic document in the workload')
     ctx.floors = {'tokens': ('listing_tokens', 5000), 'filters': ('filtered_listings', 3000)}
@@ -173,5 +193,5 @@ def run(ctx: Ctx):
 
 def replay(ctx, w):
     case = w.get('case', w)
-    one(ctx, case['case_seed'])
+    one(ctx, case['case_seed'], damage=case.get('damage', False))
     print(case.get('text', ''))
